@@ -13,6 +13,7 @@ import (
 	"sort"
 	"strings"
 	"sync"
+	"syscall"
 	"time"
 )
 
@@ -121,18 +122,37 @@ func binPath(dir, variant string) string {
 
 // worker is a running worker process.
 type worker struct {
-	cmd    *exec.Cmd
-	stdin  io.WriteCloser
-	out    *bufio.Reader
-	stderr *bytes.Buffer
-	lines  chan string
-	timer  *time.Timer
+	cmd       *exec.Cmd
+	stdin     io.WriteCloser
+	out       *bufio.Reader
+	stderr    *bytes.Buffer
+	lines     chan string
+	timer     *time.Timer
+	traceFile string
 }
 
 func startWorker(bin string, env []string) (*worker, error) {
 	cmd := exec.Command(bin, "worker")
+	traceFile := ""
+	for _, e := range env {
+		if e == "VSIM_STRACE=1" {
+			// system-call seam: the worker runs under strace and reads its own trace (file, network
+			// and process calls only) to check what a call did at the operating-system boundary
+			f, err := os.CreateTemp("/var/tmp", "vsim-strace-")
+			if err != nil {
+				return nil, err
+			}
+			traceFile = f.Name()
+			f.Close()
+			cmd = exec.Command("strace", "-f", "-qq", "--seccomp-bpf", "-s", "300", "-e", "trace=file,network,process", "-o", traceFile, bin, "worker")
+			cmd.SysProcAttr = &syscall.SysProcAttr{Setpgid: true}
+		}
+	}
 	cmd.Env = append(os.Environ(), "GORACE=halt_on_error=1 exitcode=66", "GOTRACEBACK=all", "GOMAXPROCS=1")
 	cmd.Env = append(cmd.Env, env...)
+	if traceFile != "" {
+		cmd.Env = append(cmd.Env, "VSIM_TRACE_FILE="+traceFile)
+	}
 	stdin, err := cmd.StdinPipe()
 	if err != nil {
 		return nil, err
@@ -141,7 +161,7 @@ func startWorker(bin string, env []string) (*worker, error) {
 	if err != nil {
 		return nil, err
 	}
-	w := &worker{cmd: cmd, stdin: stdin, out: bufio.NewReaderSize(stdout, 1<<20), stderr: &bytes.Buffer{}, lines: make(chan string, 4096)}
+	w := &worker{cmd: cmd, stdin: stdin, out: bufio.NewReaderSize(stdout, 1<<20), stderr: &bytes.Buffer{}, lines: make(chan string, 4096), traceFile: traceFile}
 	cmd.Stderr = &capWriter{buf: w.stderr, max: 1 << 18}
 	if err := cmd.Start(); err != nil {
 		return nil, err
@@ -176,11 +196,25 @@ func (c *capWriter) Write(p []byte) (int, error) {
 	return len(p), nil
 }
 
+// wait reaps a worker that has ended by itself.
+func (w *worker) wait() {
+	w.cmd.Wait()
+	if w.traceFile != "" {
+		os.Remove(w.traceFile)
+	}
+}
+
 func (w *worker) kill() {
 	if w.cmd.Process != nil {
+		if w.traceFile != "" {
+			syscall.Kill(-w.cmd.Process.Pid, syscall.SIGKILL) // the tracer and the traced worker
+		}
 		w.cmd.Process.Kill()
 	}
 	w.cmd.Wait()
+	if w.traceFile != "" {
+		os.Remove(w.traceFile)
+	}
 }
 
 // line reads one line with a timeout; eof=true when the worker closed its
@@ -426,7 +460,7 @@ func runSearchWorker(spec *CheckSpec, b Batch, k, nw int, res *CheckResult, mu *
 				break
 			}
 			if eof {
-				w.cmd.Wait()
+				w.wait()
 				if finished {
 					// next chunk in a fresh process (suspended coroutines leave parked goroutines behind)
 					from = last + uint64(nw)
@@ -545,7 +579,7 @@ func replayOne(binDir string, b Batch, tier string, gen, sch []uint32, hang time
 			return RunReport{Gen: gen, Sch: sch, Violation: &Violation{Rule: "HANG", Signature: "HANG:hang", Message: "replay did not finish"}}
 		}
 		if eof {
-			w.cmd.Wait()
+			w.wait()
 			exitS := "?"
 			if w.cmd.ProcessState != nil {
 				exitS = w.cmd.ProcessState.String()
@@ -656,7 +690,7 @@ func (r *replayer) runOne(gen, sch []uint32) RunReport {
 			return RunReport{Violation: &Violation{Rule: "HANG", Signature: "HANG:hang", Message: "replay did not finish"}}
 		}
 		if eof {
-			w.cmd.Wait()
+			w.wait()
 			exitS := "?"
 			if w.cmd.ProcessState != nil {
 				exitS = w.cmd.ProcessState.String()
